@@ -23,7 +23,7 @@ UNSUPPORTED_LEAVES = {"pattern", "sertype"}
 
 def bounds(tier):
     return dict(tier=tier, schemas=len(_schemas(tier)), dialects=["DRAFT_2020_12", "OPEN_API_3_1"], all_refs=[False, True],
-                targets=["bare", "dataclass field", "aliased dataclass (metadata / Config.aliases / both / Annotated Alias)", "init=False field", "fixed unpacked tuples"], max_depth=1 if tier == "quick" else 2,
+                targets=["bare", "dataclass field", "aliased dataclass (metadata / Config.aliases / both / Annotated Alias)", "init=False field", "tuples with a fixed-length or variadic unpacked part, nested one level (252 types)"], max_depth=1 if tier == "quick" else 2,
                 wrapped_values="spread of 10 (aliased: 4) in quick, full product in thorough",
                 quick_combinations="bare class-free schemas: 1 (definitions cannot occur); wrapped: DRAFT/inline + OPENAPI/all_refs; aliased: OPENAPI/all_refs")
 
@@ -268,10 +268,18 @@ def run_shape_special(unit, res):
             IF = ctx.ns["IF"]
             cases = [(IF, IF(1)), (List[IF], [IF(2)])]
         else:
-            for T, v in ((Tuple[int, Unpack[Tuple[str, str]]], (1, "a", "b")), (Tuple[Unpack[Tuple[str, str]], int], ("a", "b", 1)),
-                         (Tuple[int, Unpack[Tuple[str, str]], float], (1, "a", "b", 2.5)), (Tuple[Unpack[Tuple[int, str]]], (1, "a")),
-                         (Tuple[int, Unpack[Tuple[()]], str], (1, "s"))):
-                cases.append((T, v))
+            # every tuple  (prefix of 0..2 items) + Unpack[inner] + (suffix of 0..2 items)  over six inner tuples, two of which
+            # unpack a further fixed-length tuple themselves (with items before / after it), one variadic
+            import itertools
+            Pair = Tuple[str, float]
+            inners = [(Tuple[()], ()), (Tuple[str, str], ("a", "b")), (Tuple[int, str], (1, "a")),
+                      (Tuple[Unpack[Pair], bool], ("p", 1.5, True)), (Tuple[bool, Unpack[Pair]], (False, "p", 1.5)),
+                      (Tuple[int, Unpack[Pair], bool], (7, "p", 1.5, True)), (Tuple[int, ...], (4, 5, 6))]
+            sample = {int: 1, str: "s", float: 2.5}
+            sides = [()] + [(t,) for t in sample] + [(int, str), (str, int)]
+            for (inner, iv), pre, suf in itertools.product(inners, sides, sides):
+                T = Tuple[tuple(pre) + (Unpack[inner],) + tuple(suf)]
+                cases.append((T, tuple(sample[t] for t in pre) + iv + tuple(sample[t] for t in suf)))
         for ci, (T, v) in enumerate(cases):
             for dialect, dname in ((DRAFT_2020_12, "DRAFT_2020_12"), (OPEN_API_3_1, "OPEN_API_3_1")):
                 for all_refs in (False, True):
